@@ -145,7 +145,7 @@ func TarWriteHeader(tw *tar.Writer, h *tar.Header) error {
 		put64(blk, offMTime, h.ModTime.Unix())
 	}
 	blk[offType] = h.Typeflag
-	blk[offFormat] = byte(h.Format)
+	blk[offFormat] = byte(modelFormat(h))
 	blk[offLinkLen] = byte(len(h.Linkname))
 	blk[offUnLen] = byte(len(h.Uname))
 	blk[offGnLen] = byte(len(h.Gname))
@@ -230,4 +230,16 @@ func TarClose(tw *tar.Writer) error {
 	}
 	st.err = tar.ErrWriteAfterClose
 	return nil
+}
+
+// modelFormat: the format the real writer ends up using for short ASCII fields:
+// the one requested, or USTAR when none is requested (PAX records force PAX).
+func modelFormat(h *tar.Header) tar.Format {
+	if h.Format != tar.FormatUnknown {
+		return h.Format
+	}
+	if len(h.PAXRecords) > 0 {
+		return tar.FormatPAX
+	}
+	return tar.FormatUSTAR
 }
